@@ -137,6 +137,8 @@ def type_labels(spec):
                 lb.add("non_C_order")
                 if nd == 3 and tuple(s["order"]) in ((1, 2, 0), (2, 0, 1)):
                     lb.add("three_cycle_order")
+                    if is_dynamic(s["item"]):
+                        lb.add("three_cycle_order_dynamic_items")
             if s["item"]["k"] in ("ref", "unionref"):
                 lb.add("ref_inside_array")
             if s["item"]["k"] == "array":
@@ -240,7 +242,11 @@ def _draw_type(draw, cfg, namer, budget, depth, kind, elems):
                 shape.append(d)
                 room = max(1, room // d)
         if nd > 1 and cfg.allow_orders and draw(st.integers(0, 1)) == 1:
-            order = list(draw(st.permutations(list(range(nd)))))
+            if nd == 3 and draw(st.integers(0, 1)) == 1:
+                # the two cyclic orders are the only ones that differ from their inverse: weighted explicitly
+                order = list(draw(st.sampled_from([(1, 2, 0), (2, 0, 1)])))
+            else:
+                order = list(draw(st.permutations(list(range(nd)))))
         else:
             order = list(range(nd))
         n_inst = elems * math.prod(cfg.max_dyn_extent if d is None else d for d in shape)
